@@ -64,9 +64,12 @@ def run(ctx):
         ncase += s["cases"]
         ctx.cov["handover_gates"] = s["cases"]
     # (3) stress, plain and with the race detector
-    runs = [(stress, ["-bulks", "1500" if quick else "6000", "-seed", str(ctx.seed)], "plain"),
-            (stress, ["-bulks", "1500" if quick else "6000", "-seed", str(ctx.seed + 1), "-skip"], "plain-skip"),
-            (stress_race, ["-bulks", "400" if quick else "2500", "-seed", str(ctx.seed)], "race")]
+    # 16 readers: a reader must sit between two adjacent steps of its snapshot while a bulk with never-seen tokens is
+    # indexed; with 4 readers a mutant that swaps two snapshot reads was caught in 5 of 10 runs, with 16 in 10 of 10
+    runs = [(stress, ["-bulks", "1500" if quick else "6000", "-seed", str(ctx.seed), "-readers", "16"], "plain"),
+            (stress, ["-bulks", "1500" if quick else "6000", "-seed", str(ctx.seed + 1), "-skip", "-readers", "16"], "plain-skip"),
+            (stress, ["-bulks", "1500" if quick else "6000", "-seed", str(ctx.seed + 2), "-readers", "32", "-writers", "6"], "plain-32"),
+            (stress_race, ["-bulks", "400" if quick else "2500", "-seed", str(ctx.seed), "-readers", "8"], "race")]
     docs = 0
     for binp, args, label in runs:
         rc, outs, err = vlib.run_driver(binp, args, timeout=3000, ok_codes=range(0, 256))
@@ -89,7 +92,7 @@ def run(ctx):
     ctx.cov["rule"] = ("forced interleavings: every complete behaviour of ActiveIndex.tla (2 bulks: {d1 with token, d2 without} and {d3 newer, with token}; "
                        "reader rounds: 1 quick / 2 thorough; SetPos/AppendIDs/PutToks/Stats x SnapInfo/SnapAll/SnapIDs/ReadTok/Return/FetchDone), each replayed on a fresh real store; "
                        "hand-over: every lock-free hook point of rotate+seal+release in both SkipSortDocs modes x (atomic reader) and x (atomic reader + appender), and the slow-reader scenario; "
-                       "stress: 4 writers x 1500 bulks, 4 readers, maintenance loop with FracSize 600 B, cache resets; non-trivial = forced behaviours with > 4 steps")
+                       "stress: 4 (6) writers x 1500 bulks, 16 (32) readers, maintenance loop with FracSize 600 B, cache resets; non-trivial = forced behaviours with > 4 steps")
     ctx.assumptions += ["'no data race' is the Go race detector's verdict on the explored schedules, not a statement of the specification",
                         "the two token-queue insertions of one bulk (_all_ and the token) cannot be separated by a hook: that finer interleaving is checked in the model only (Split = TRUE)",
                         "proxyFrac is bound through forced reader-atomic interleavings and the stress workload; retention (suicide) is excluded from the workload as the property's schedule is rotate -> seal -> release"]
